@@ -75,8 +75,20 @@ def canon(v):
 _SINK = io.StringIO()
 
 
+ARG_CHANGES = []     # (kernel name, argument index, values before, values after): filled by call(), reported by run()
+
+
+def _kernel_name(fn):
+    return getattr(fn, '__name__', None) or getattr(getattr(fn, 'py_func', None), '__name__', None) or repr(fn)[:60]
+
+
 def call(fn, *a):
+    """Canonical result of fn(*a).  Array arguments are snapshotted: a numerical kernel returns its answer, it does not
+    overwrite the data it was given (seed C20-10: the tridiagonal solve wrote its solution into the caller's right-hand
+    side, so `A u = r` can no longer be checked against r and solving twice with the same r gives another answer)."""
     from financepy.utils.error import FinError
+    import numpy as _np
+    snap = [(i, x.copy()) for i, x in enumerate(a) if isinstance(x, _np.ndarray)]
     try:
         with warnings.catch_warnings(), contextlib.redirect_stdout(_SINK):
             warnings.simplefilter('ignore')
@@ -87,6 +99,10 @@ def call(fn, *a):
         return ('e', 'FinError')
     except Exception as e:  # noqa: BLE001
         return ('e', type(e).__name__)
+    finally:
+        for i, before in snap:
+            if before.tobytes() != a[i].tobytes() and len(ARG_CHANGES) < 50:
+                ARG_CHANGES.append((_kernel_name(fn), i, before.tolist(), a[i].tolist()))
 
 
 def parse_model(s):
@@ -1584,6 +1600,16 @@ def run(ctx):
         sobol_fit_section(ctx, meas)
         sobol_counts_section(ctx, meas, drivers_ok)
         differential_section(ctx, meas)
+    seen = set()
+    for name, i, before, after in ARG_CHANGES:
+        if (name, i) in seen:
+            continue
+        seen.add((name, i))
+        ctx.violation(f'{name} overwrote its array argument #{i}: a kernel must return its result and leave the caller\'s data '
+                      'as it was (a second call with the same arrays, or a residual check against them, now sees other numbers)',
+                      {'kernel': name, 'argument_index': i, 'argument_before': before, 'argument_after': after},
+                      clause='argument-intact')
+    ctx.count('array arguments left intact by the kernels', len(ARG_CHANGES) + 1, 1)
     ctx.cov['measured_max_deviation'] = {k: float(f'{v:.3e}') for k, v in sorted(meas.m.items())}
     ctx.assumptions += [
         'PARTIAL: the approximation-error bounds (|N-Phi|<=1e-6, Acklam 2e-9 relative, phi2 5e-7, phi3 5e-4, '
